@@ -39,6 +39,7 @@ type countSink struct {
 	syncs     int
 	closes    int
 	failWrite bool
+	failClose bool
 }
 
 func (s *countSink) Write(p []byte) (int, error) {
@@ -51,7 +52,15 @@ func (s *countSink) Write(p []byte) (int, error) {
 	return len(p), nil
 }
 func (s *countSink) Sync() error  { s.mu.Lock(); s.syncs++; s.mu.Unlock(); return nil }
-func (s *countSink) Close() error { s.mu.Lock(); s.closes++; s.mu.Unlock(); return nil }
+func (s *countSink) Close() error {
+	s.mu.Lock()
+	defer s.mu.Unlock()
+	s.closes++
+	if s.failClose {
+		return errors.New("scripted close failure")
+	}
+	return nil
+}
 
 var (
 	c19Scheme   string
@@ -67,7 +76,7 @@ func c19Factory(u *url.URL) (zap.Sink, error) {
 	if strings.Contains(u.RawQuery, "fate=fail") {
 		return nil, fmt.Errorf("scripted open failure for %s", id)
 	}
-	s := &countSink{id: id, failWrite: strings.Contains(u.RawQuery, "failwrite=1")}
+	s := &countSink{id: id, failWrite: strings.Contains(u.RawQuery, "failwrite=1"), failClose: strings.Contains(u.RawQuery, "failclose=1")}
 	c19Mu.Lock()
 	c19Sinks[id] = s
 	c19Mu.Unlock()
@@ -154,6 +163,11 @@ func replayOpenBuild(b obBeh, n int) (finds []Finding) {
 			p := fmt.Sprintf("%s://h/%s%d-%d?fate=%s", c19Scheme, kind, n, i+1, f)
 			if failWriteFirst && i == 0 && f == "ok" {
 				p += "&failwrite=1"
+			}
+			if n%3 == 1 && f == "ok" {
+				// closing this sink reports an error (a network sink that cannot say goodbye): every other sink
+				// opened by the call is released all the same
+				p += "&failclose=1"
 			}
 			// scheme case must not matter
 			if (n+i)%3 == 0 {
@@ -307,6 +321,24 @@ func replaySinkURLPath(b sinkURLBeh, sub string) (finds []Finding) {
 		if b.URL.Scheme != "none" {
 			raw = b.URL.Scheme + "://" + map[string]string{"empty": "", "localhost": "localhost"}[b.URL.Host] + sub + "/./stdout"
 		}
+	case "escaped-letter", "escaped-slash", "escaped-lowerhex", "escaped-space":
+		if b.URL.Scheme == "none" {
+			return nil // escapes only mean something inside a URL
+		}
+		os.MkdirAll(filepath.Join(sub, "svc"), 0o755)
+		enc, dec := map[string][2]string{
+			"escaped-letter":   {"%61pp.log", "app.log"},
+			"escaped-slash":    {"svc%2Fout.log", "svc/out.log"},
+			"escaped-lowerhex": {"caf%c3%a9.log", "café.log"},
+			"escaped-space":    {"my%20app.log", "my app.log"},
+		}[b.URL.Path][0], map[string][2]string{
+			"escaped-letter":   {"%61pp.log", "app.log"},
+			"escaped-slash":    {"svc%2Fout.log", "svc/out.log"},
+			"escaped-lowerhex": {"caf%c3%a9.log", "café.log"},
+			"escaped-space":    {"my%20app.log", "my app.log"},
+		}[b.URL.Path][1]
+		wantFile, wrongFile = filepath.Join(sub, dec), filepath.Join(sub, enc)
+		raw = b.URL.Scheme + "://" + map[string]string{"empty": "", "localhost": "localhost"}[b.URL.Host] + sub + "/" + enc
 	default:
 		return nil
 	}
